@@ -83,11 +83,12 @@ class Impl:
         d = object.__getattribute__(o, "__dict__")
         try:
             enc = [[G.IDS[n], G.encode_obj(v, self.ns)] for n, v in d.items()]
+            posts = [[x[1], [G.IDS[n] for n in x[2]]] for x in log if x[0] == "post"]
         except (ValueError, KeyError):
             # the instance holds something outside the value grammar (e.g. the MISSING sentinel):
             # reported as an outcome no specification accepts
             return ["err", "UserErr", any(x[0] == "ph" for x in log)]
-        return ["ok", enc, [x[1] for x in log if x[0] == "post"], [x[1] for x in log if x[0] == "hand"],
+        return ["ok", enc, posts, [x[1] for x in log if x[0] == "hand"],
                 any(x[0] == "ph" for x in log)]
 
 
@@ -110,7 +111,8 @@ def kw_coq(kw):
 def obs_coq(o):
     if o[0] == "err":
         return f"(OErr {o[1]})"
-    return f"(OOk {kw_coq(o[1])} {G.clist(o[2], G.nat)} {G.clist(o[3], G.nat)})"
+    posts = G.clist(o[2], lambda p: f"({G.nat(p[0])}, {G.clist(p[1], G.nat)})")
+    return f"(OOk {kw_coq(o[1])} {posts} {G.clist(o[3], G.nat)})"
 
 
 def call_coq(cl):
@@ -185,9 +187,12 @@ def gen_cases(rng, tier, budget_s):
         if time.time() - t0 > budget_s:
             break
         d = depth if i % 5 else max(1, depth - 1)
+        single = False
         if not quick and i % 7 == 0:
             d = 4                       # deeper single-inheritance chains
-        hier, label = G.gen_hierarchy(rng, d)
+        if quick and i % 4 == 3:
+            d, single = 3, True         # quick: a quarter are chains of depth 3 (spec/plain mixed)
+        hier, label = G.gen_hierarchy(rng, d, single_only=single)
         why = G.well_formed(hier)
         if why is not None:
             # a generator slip is not a finding about the library: count it and go on
@@ -488,7 +493,7 @@ def main(tier, replay=None):
     failing.sort(key=lambda fc: (known_like(fc[0]), -fc[1], len(json.dumps(fc[0]["hier"]))))
     n_suspicious = len([1 for fc in failing if not known_like(fc[0])])
     reported = {}
-    deadline = time.time() + (240 if tier == "quick" else 900)
+    deadline = time.time() + (110 if tier == "quick" else 900)
     seen_cat = set()
     for case1, code in failing:
         suspicious = not known_like(case1)
@@ -560,10 +565,11 @@ def main(tier, replay=None):
                            "hierarchies_with_calls_inside_theorem": len([1 for v in SCOPE.get("c", {}).values() if v]),
                            "compared": "cls.__spec_class__ of every spec class (attribute order, type, default kind and value, "
                                        "init, owner, do_not_copy, preparer, key, overflow); per call the instance __dict__ in order, "
-                                       "error class, __post_init__ and hand-written constructor call records"},
+                                       "error class, __post_init__ records (defining class + attribute names the hook found set) "
+                                       "and hand-written constructor call records"},
         "evaluations": ncalls, "distinct_nontrivial": len(distinct),
         "rule": "one evaluation = one constructor call on one class of one generated hierarchy (shapes of depth <= "
-                + ("2" if tier == "quick" else "3 (+ single chains of depth 4)")
+                + ("2 (+ single chains of depth 3)" if tier == "quick" else "3 (+ single chains of depth 4)")
                 + "); per hierarchy every subset of <= " + ("4" if tier == "quick" else "6")
                 + " keywords of a candidate list (managed names with conforming / non-conforming values, init=False names, "
                   "overflow name, unknown names) plus positional-key variants; distinct = distinct (hierarchy, class, call)",
